@@ -112,6 +112,11 @@ class TypeOverwriting(Transformation):
                 for i, t_param in enumerate(type_parameters)
             }
             n.t.type_args[indexes[type_param.t]] = ir_type
+            if getattr(n.t, 'can_infer_type_args', False):
+                # An earlier type erasure marked these type arguments as
+                # inferable (omitted in the source text); the overwritten
+                # argument must be printed, otherwise nothing is injected.
+                n.t.can_infer_type_args = False
         self.is_transformed = True
         self.error_injected = "{} expected but {} found in node {}".format(
             str(old_type), str(ir_type), n.node_id)
